@@ -8,7 +8,7 @@ for l in open('/verif/seeded/matrix.tsv').read().splitlines()[1:]:
     rows.append((parts[0], parts[1].split(), parts[2].split()))
 out=["# Seeded changes and the quick checks that detect them","",
 "Every change compiles and keeps the repository's 69 unit + 11 doc tests green. `own` = the check of the property the change was written against.","",
-"Rows of rounds 1-4 and of the regressions orig-02..15 list the result of the own check plus the nine checks whose quick tier takes under two seconds (C02 C04 C05 C06 C07 C13 C15 C16 C17), computed with the machinery as it was after round 4: the checks have only grown since, so these rows are lower bounds. Rows of rounds 5-8 (and orig-16, orig-17) ran the own check only (`MATRIX_MODE=own`), with the final machinery; an empty 'detected by' column there together with 'by design' is explained in DESIGN.md 11.4.","",
+"Rows of rounds 1-4 and of the regressions orig-02..15 list the result of the own check plus the nine checks whose quick tier takes under two seconds (C02 C04 C05 C06 C07 C13 C15 C16 C17), computed with the machinery as it was after round 4: the checks have only grown since, so these rows are lower bounds. Rows of rounds 5-8 (and orig-16, orig-17) ran the own check only (`MATRIX_MODE=own`), with the final machinery; an empty 'detected by' column there together with 'by design' is explained in DESIGN.md 11.4. Rows of round 9 ran the own check plus the nine fast checks with the final machinery.","",
 "| change | breaks | what it is / what it needs | detected by (quick tier) | own check detects |","|---|---|---|---|---|"]
 for name,det,nd in rows:
     mp=f'/verif/seeded/{name}/meta.json'
